@@ -57,15 +57,16 @@ structure Frame (w w' : WSt σ) (d : ByteArray) : Prop where
   snapTbl : w'.snapTbl = w.snapTbl
   data : w'.hist ++ w'.look = w.hist ++ w.look ++ d
   hist : w.hist.size ≤ w'.hist.size
+  dig : w.digits ≤ w'.digits
 
 theorem Frame.refl (w : WSt σ) : Frame w w ByteArray.empty :=
-  ⟨rfl, rfl, rfl, rfl, rfl, rfl, rfl, by rw [ByteArray.append_empty], Nat.le_refl _⟩
+  ⟨rfl, rfl, rfl, rfl, rfl, rfl, rfl, by rw [ByteArray.append_empty], Nat.le_refl _, Nat.le_refl _⟩
 
 theorem Frame.trans {w w1 w2 : WSt σ} {d1 d2 : ByteArray} (h1 : Frame w w1 d1) (h2 : Frame w1 w2 d2) :
     Frame w w2 (d1 ++ d2) :=
   ⟨h2.out.trans h1.out, h2.chunks.trans h1.chunks, h2.cstate.trans h1.cstate, h2.ctype.trans h1.ctype,
    h2.start.trans h1.start, h2.snapS.trans h1.snapS, h2.snapTbl.trans h1.snapTbl,
-   by rw [h2.data, h1.data, ByteArray.append_assoc], Nat.le_trans h1.hist h2.hist⟩
+   by rw [h2.data, h1.data, ByteArray.append_assoc], Nat.le_trans h1.hist h2.hist, Nat.le_trans h1.dig h2.dig⟩
 
 theorem Frame.trans0 {w w1 w2 : WSt σ} {d : ByteArray} (h1 : Frame w w1 ByteArray.empty) (h2 : Frame w1 w2 d) :
     Frame w w2 d := by
@@ -95,7 +96,7 @@ theorem Inv.setM {c : Cfg} {w : WSt σ} (hi : Inv c w) (m' : σ) : Inv c { w wit
    hi.start, hi.wr, hi.r0, hi.r0s, hi.lim⟩
 
 theorem Frame.setM (w : WSt σ) (m' : σ) : Frame w { w with m := m' } ByteArray.empty :=
-  ⟨rfl, rfl, rfl, rfl, rfl, rfl, rfl, by rw [ByteArray.append_empty], Nat.le_refl _⟩
+  ⟨rfl, rfl, rfl, rfl, rfl, rfl, rfl, by rw [ByteArray.append_empty], Nat.le_refl _, Nat.le_refl _⟩
 
 theorem extract_append_le (a b : ByteArray) (k : Nat) (hk : k ≤ a.size) :
     (a ++ b).extract 0 k = a.extract 0 k := by
@@ -169,7 +170,7 @@ theorem encodeOp_spec (c : Cfg) (hc : CfgOk' c) (w : WSt σ) (g : GoOp) (hi : In
     have hsh := encodeOps_sh c.props w.snapS w.snapTbl (H0 c w) w.curOps.toList
     rw [hi.enc] at hsh
     refine ⟨⟨hi.cks, hi.out, hi.ctype, ?_, ?_, ?_, rfl, rest_clear_out _ hnest.1, tblAfter_ok _ _ hi.tblok,
-      hi.snapok, ?_, ?_, ?_, ?_, hi.r0s, ?_⟩, ⟨rfl, rfl, rfl, rfl, rfl, rfl, rfl, ?_, ?_⟩, ?_⟩
+      hi.snapok, ?_, ?_, ?_, ?_, hi.r0s, ?_⟩, ⟨rfl, rfl, rfl, rfl, rfl, rfl, rfl, ?_, ?_, ?_⟩, ?_⟩
     · show (EE c w).h = _
       rw [hi.eh]; exact hH0.symm
     · show encodeOps c.props w.snapS w.snapTbl ⟨(w.hist ++ w.look.extract 0 g.len).extract 0 w.start, 0, c.dictCap⟩
@@ -209,6 +210,14 @@ theorem encodeOp_spec (c : Cfg) (hc : CfgOk' c) (w : WSt σ) (g : GoOp) (hi : In
       rw [ByteArray.append_assoc, extract_split _ _ hlen2, ByteArray.append_empty]
     · show w.hist.size ≤ (w.hist ++ w.look.extract 0 g.len).size
       rw [hhs]; omega
+    · have h1 := hnest.2.1
+      unfold WSt.digits
+      dsimp only
+      rw [foldl_push_size]
+      unfold Enc.digits at h1 hdig
+      simp only [List.length_nil]
+      unfold WSt.digits at hdig
+      omega
     · show (w.look.extract g.len w.look.size).size + 1 ≤ w.look.size
       rw [hls]; omega
 
@@ -283,7 +292,7 @@ theorem dictWrite_spec (c : Cfg) (w : WSt σ) (p : ByteArray) (n : Nat) (hi : In
   have hex : (p.extract n (n + k)).size = k := by
     rw [ByteArray.size_extract]; omega
   refine ⟨⟨hi.cks, hi.out, hi.ctype, hi.eh, hi.enc, hi.ops, hi.eout, hi.erest, hi.tblok, hi.snapok, ?_,
-    hi.start, ?_, hi.r0, hi.r0s, hi.lim⟩, ⟨rfl, rfl, rfl, rfl, rfl, rfl, rfl, ?_, Nat.le_refl _⟩, rfl⟩
+    hi.start, ?_, hi.r0, hi.r0s, hi.lim⟩, ⟨rfl, rfl, rfl, rfl, rfl, rfl, rfl, ?_, Nat.le_refl _, Nat.le_refl _⟩, rfl⟩
   · show (w.look ++ p.extract n (n + k)).size + min w.hist.size c.dictCap ≤ ringCap c
     have := hi.space
     rw [ByteArray.size_append, hex]
